@@ -143,6 +143,12 @@ def run_calc(qr, spec, molecule=False, tensor=False, fingerprint=False, split=No
             kw = dict(relaxation_tensor=RT, effective_hamiltonian=ham)
             with qr.eigenbasis_of(ham):
                 extra["Rdiag"] = numpy.array([RT.data[a, a, a, a] for a in range(ham.dim)])
+        elif fingerprint and not split and not diagonalized:
+            # the effective Hamiltonian is an object of the caller's own (equal to the system's): the system's
+            # Hamiltonian must come back untouched and the spectrum is that of the plain calculation
+            from quantarhei.qm.hilbertspace.hamiltonian import Hamiltonian
+            with qr.energy_units("int"):
+                kw = dict(effective_hamiltonian=Hamiltonian(data=numpy.array(agg.get_Hamiltonian()._data, copy=True)))
         if split:
             with qr.energy_units("1/cm"):
                 agg.get_Hamiltonian().remove_cutoff_coupling(float(split))
